@@ -295,3 +295,36 @@ func init() {
 	})
 	reg(vrt+"IdealDecode", intrinsics["github.com/shamaton/msgpack/v2.Unmarshal"])
 }
+
+// ---- network / parsing leaves: nondeterministic success or failure, no effects ----
+
+func init() {
+	reg := func(name string, f intrinsic) { intrinsics[name] = f }
+	reg("google.golang.org/grpc.Dial", func(r *Run, g *G, a []Value) (Value, action) {
+		if r.decide("env:grpc.Dial", 2, nil, r.curPosPrev(g)) == 0 {
+			p := new(Value)
+			*p = Opaque{kind: "grpc.ClientConn", id: r.nextOpaque()}
+			return Tuple{Ptr(p), Iface{}}, actDone
+		}
+		return Tuple{Ptr(nil), r.codecError()}, actDone
+	})
+	reg("google.golang.org/grpc.DialContext", intrinsics["google.golang.org/grpc.Dial"])
+	reg("(*google.golang.org/grpc.ClientConn).Close", func(r *Run, g *G, a []Value) (Value, action) {
+		if p, ok := a[0].(Ptr); !ok || p == nil {
+			// the real method dereferences its receiver
+			r.runtimePanic(g, "invalid memory address or nil pointer dereference")
+			return nil, actPanic
+		}
+		return Iface{}, actDone
+	})
+	reg("net/url.Parse", func(r *Run, g *G, a []Value) (Value, action) {
+		if r.decide("env:url.Parse", 2, nil, r.curPosPrev(g)) == 0 {
+			p := new(Value)
+			*p = Opaque{kind: "url.URL", id: r.nextOpaque()}
+			return Tuple{Ptr(p), Iface{}}, actDone
+		}
+		return Tuple{Ptr(nil), r.codecError()}, actDone
+	})
+}
+
+func (r *Run) nextOpaque() int { r.opaqueCount++; return r.opaqueCount }
